@@ -602,7 +602,7 @@ def calc_fisher_matrix_total(
         raise ValueError(
             f"size of prob_dists and grad_prob_dists must be equal. size of prob_dists={size_prob_dists}, size of grad_prob_dists={size_grad_prob_dists}"
         )
-    if size_prob_dists != size_grad_prob_dists:
+    if size_prob_dists != size_weights:
         raise ValueError(
             f"size of prob_dists and weights must be equal. size of prob_dists={size_prob_dists}, size of weights={size_weights}"
         )
@@ -615,7 +615,7 @@ def calc_fisher_matrix_total(
             )
 
     ### calculate
-    matrix_size = prob_dists[0].shape[0]
+    matrix_size = len(grad_prob_dists[0][0])
     matrix = np.zeros((matrix_size, matrix_size))
     for index in range(size_prob_dists):
         matrix += weights[index] * calc_fisher_matrix(
